@@ -87,6 +87,7 @@ class Policy:
         self.multi_card = 0.4           # several cards per deal call
         self.manual_show = 0.35         # show/muck by explicit boolean
         self.muck = 0.3
+        self.partial_show = 0.08        # cash games: table only some of the hole cards
         self.runout = 0.7               # probability a selector expresses a preference
         self.noop = 0.02
         self.illegal = 0.15             # attempt an illegal request before the legal one
@@ -251,6 +252,10 @@ def legal_moves(st: State, rng: random.Random, pol: Policy, werr: bool):
                         mv.append((1, 'show_or_muck_hole_cards', A(p=p, mode='cards', cards=cs)))
                     else:
                         mv.append((1, 'show_or_muck_hole_cards', A(p=p, mode='bool', b=False)))
+            elif hc and rng.random() < pol.partial_show and st.mode == pk.Mode.CASH_GAME:
+                # table only some of the cards (allowed in cash games)
+                k = rng.randint(1, len(hc))
+                mv.append((1, 'show_or_muck_hole_cards', A(p=p, mode='cards', cards=rng.sample(hc, k))))
             elif rng.random() < pol.manual_show:
                 b = rng.random() >= pol.muck or not (pol.allow_orphan or safe_to_muck(st, who))
                 mv.append((1, 'show_or_muck_hole_cards', A(p=p, mode='bool', b=b)))
@@ -316,33 +321,32 @@ def play_hand(tid: int, spec: dict, rng: random.Random, pol: Policy, max_steps=4
     k = 0
     while k < max_steps:
         k += 1
-        probes = []
+        probes, psame = [], True
         if rng.random() < pol.probe_every:
-            for op, a in probe_universe(st, rng, pol.probe_level):
-                probes.append(play.probe(st, op, a, werr))
+            probes, psame = play.probes(st, probe_universe(st, rng, pol.probe_level), werr)
         moves = legal_moves(st, rng, pol, werr)
         if not moves:
-            steps.append(play.probe_only(probes))
+            steps.append(play.probe_only(probes, psame))
             break
         if rng.random() < pol.illegal:
             op, a = illegal_move(st, rng, pol)
-            ev = play.step(st, op, a, werr, probes)
+            ev = play.step(st, op, a, werr, probes, psame=psame)
             steps.append(ev)
-            probes = []
+            probes, psame = [], True
             if ev['out'].startswith('Other:'):
                 break
             if ev['out'] == 'ok':
                 continue
         if rng.random() < pol.noop:
-            steps.append(play.step(st, 'no_operate', NOARGS, werr, probes))
-            probes = []
+            steps.append(play.step(st, 'no_operate', NOARGS, werr, probes, psame=psame))
+            probes, psame = [], True
         tot = sum(w for w, _, _ in moves)
         x = rng.random() * tot
         for w, op, a in moves:
             x -= w
             if x <= 0:
                 break
-        ev = play.step(st, op, a, werr, probes)
+        ev = play.step(st, op, a, werr, probes, psame=psame)
         steps.append(ev)
         if ev['out'].startswith('Other:'):
             break
